@@ -60,7 +60,7 @@ radio/additive 0.03 (1.9 eps of 64), radio/halflife 0.011 of the analytic bound,
 all, viscosity pairs were inverted by at most 3.2e-16 relative (slack 1e-12). A wrong coefficient moves the radio
 clauses by >= 1e-3 relative and the monotone ones by the pair ratio (median step 1e-3), i.e. >= 1e9 x the slack.
 
-Findings on the pinned tree (see known_findings.d/C19.json)
+Findings on the pinned tree (see known_findings.json)
   KF-C19-fixed-halflife-zero   `fixed(..., average_half_life=0)` raises ZeroDivisionError although the docstring
                                says "Set to 0 for no decay".
   KF-C19-arrhenius-clamp-T     arrhenius with additional_temp_dependence=True: once (E+PV)/(RT) >= ln(DBL_MAX) the
